@@ -115,20 +115,84 @@ func VerifPoolOutstanding() (out [6]int) {
 // Quiescence ticks: counters the harness polls to know that the three server
 // loops have finished with everything it has sent, instead of sleeping.
 const (
-	verifTickReadLoop    = iota // the read loop is about to read the next frame
-	verifTickForwarded          // a frame was handed to the stream loop
-	verifTickStreamLoop         // the stream loop is about to wait for its next event
-	verifTickHandlerDone        // a handler goroutine reported back
-	verifTickQueued             // a frame was queued for the write loop
-	verifTickWritten            // the write loop has written (and released) a frame
-	verifTickDispatch           // a handler goroutine is about to be started
-	verifTickHandlerGone        // a handler returned after the stream loop had stopped
+	verifTickReadLoop     = iota // the read loop is about to read the next frame
+	verifTickForwarded           // a frame was handed to the stream loop
+	verifTickStreamLoop          // the stream loop is about to wait for its next event
+	verifTickHandlerDone         // a handler goroutine reported back
+	verifTickQueued              // a frame was queued for the write loop
+	verifTickWritten             // the write loop has written (and released) a frame
+	verifTickDispatch            // a handler goroutine is about to be started
+	verifTickHandlerGone         // a handler returned after the stream loop had stopped
+	verifTickCliRead             // client read loop: about to read the next frame
+	verifTickCliRLExit           // client read loop has returned (its deferred Close included)
+	verifTickCliInSent           // Conn.Write put a Ctx on c.in
+	verifTickCliInTaken          // the client write loop took a Ctx from c.in
+	verifTickCliOutSent          // writeOut put a frame on c.out
+	verifTickCliOutTaken         // the client write loop took a frame from c.out
+	verifTickCliWinSent          // signalWindow put a token on winCh
+	verifTickCliWinTaken         // the client write loop took the winCh token
+	verifTickCliPingTaken        // the client write loop took a ping tick
+	verifTickCliWLTop            // the client write loop is about to select
+	verifTickCliWLExit           // writeLoop has returned (queues drained)
+	verifTickCliTimeout          // Ctx.fireTimeout has returned
+	verifTickCliCloseDone        // Conn.Close has closed c.done (and is about to write GOAWAY)
 	verifTickCount
+)
+
+// The client tick kinds, for the harness (VerifClientTicks is indexed from
+// VerifTickCliFirst; VerifGate takes the absolute kind).
+const (
+	VerifTickCliFirst     = verifTickCliRead
+	VerifTickCliRead      = verifTickCliRead
+	VerifTickCliRLExit    = verifTickCliRLExit
+	VerifTickCliInSent    = verifTickCliInSent
+	VerifTickCliInTaken   = verifTickCliInTaken
+	VerifTickCliOutSent   = verifTickCliOutSent
+	VerifTickCliOutTaken  = verifTickCliOutTaken
+	VerifTickCliWinSent   = verifTickCliWinSent
+	VerifTickCliWinTaken  = verifTickCliWinTaken
+	VerifTickCliPingTaken = verifTickCliPingTaken
+	VerifTickCliWLTop     = verifTickCliWLTop
+	VerifTickCliWLExit    = verifTickCliWLExit
+	VerifTickCliTimeout   = verifTickCliTimeout
+	VerifTickCliCloseDone = verifTickCliCloseDone
+	VerifTickCount        = verifTickCount
 )
 
 var verifTicks [verifTickCount]int64
 
-func verifTick(which int) { atomic.AddInt64(&verifTicks[which], 1) }
+// verifGates: a goroutine that ticks a kind with a gate set parks there until
+// the harness opens the gate. This is how the harness holds a goroutine at a
+// program point to exhibit one particular interleaving.
+var verifGates [verifTickCount]atomic.Pointer[chan struct{}]
+
+func verifTick(which int) {
+	atomic.AddInt64(&verifTicks[which], 1)
+
+	if g := verifGates[which].Load(); g != nil {
+		<-*g
+	}
+}
+
+// VerifGate makes the next goroutines that tick kind wait; the returned
+// function lets them go and removes the gate.
+func VerifGate(kind int) (open func()) {
+	ch := make(chan struct{})
+	verifGates[kind].Store(&ch)
+
+	return func() {
+		verifGates[kind].Store(nil)
+		close(ch)
+	}
+}
+
+// VerifClientTicks returns a snapshot of every counter (all kinds).
+func VerifClientTicks() (out [verifTickCount]int64) {
+	for i := range out {
+		out[i] = atomic.LoadInt64(&verifTicks[i])
+	}
+	return out
+}
 
 // VerifTicks returns a snapshot of the counters.
 func VerifTicks() (out [8]int64) {
